@@ -10,6 +10,8 @@ void restrict_for_domain(GenConfig &gc, const DomainInfo &di) {
     gc.large = false;
     gc.huge = false;
   }
+  if (di.caps & CAP_PARTITION)
+    gc.partition = true;
   if (di.caps & CAP_BV) {
     gc.large = false;
     gc.huge = false;
